@@ -407,6 +407,9 @@ def gen_cases(ctx):
             d['surfaces'][-2]['material'] = medium(1.3, 1.8)
         elif u < 0.17 and not finite:    # object space not air: finding F-C09-2
             d['surfaces'][0]['material'] = medium(1.2, 1.6)
+        if rng.random() < 0.08:
+            # a flat but tilted image surface (detector not square to the axis): the image points no longer share a z
+            d['surfaces'][-1][rng.choice(['rx', 'ry'])] = lensgen.dyadic(rng, 0.01, 0.08, 8) * rng.choice([1, -1])
         case = {'desc': d, 'kind': rng.choice(kinds), 'image_solve': rng.random() < 0.6}
         out.append(generic(case))
     return out
@@ -491,6 +494,16 @@ def run_impl(ctx, case):
     job.fields = [tuple(f) for f in wf.fields]
     job.px = np.array(wf.distribution.x, dtype=float)
     job.py = np.array(wf.distribution.y, dtype=float)
+    # the documented pupil samples are those of the *requested* distribution and ray count (built independently)
+    req = case.get('dist') if kind not in ('opd', 'fan') else None
+    if isinstance(req, str) and req not in ('random', 'gaussian_quad'):
+        from optiland.distribution import create_distribution
+        want = create_distribution(req)
+        want.generate_points(case['num_rays'])
+        wx, wy = np.array(want.x, dtype=float), np.array(want.y, dtype=float)
+        job.obs['samples_requested'] = (req, case['num_rays'], bool(
+            wx.shape == job.px.shape and np.array_equal(wx, job.px) and np.array_equal(wy, job.py)),
+            int(job.px.size), int(wx.size))
     job.data = [[(np.array(wf.data[i][j][0], dtype=float).copy(), np.array(wf.data[i][j][1], dtype=float).copy())
                  for j in range(len(wls))] for i in range(len(job.fields))]
     for i, f in enumerate(job.fields):
@@ -517,6 +530,13 @@ def evaluate(ctx, job, outs):
     """compare with the model's answers, then evaluate the property's predicate"""
     case, optic = job.case, job.optic
     kind = case['kind']
+    sr = job.obs.get('samples_requested')
+    if sr is not None:
+        if sr[2]:
+            ctx.count('pred: samples are those of the requested distribution')
+        else:
+            ctx.fail('the analysis is evaluated on the documented pupil samples of the requested distribution '
+                     '(%s, %d)' % (sr[0], sr[1]), case, {'samples_used': sr[3]}, {'samples_requested': sr[4]})
     reason = in_quantifier(optic)
     xpl = spec_xpl(optic)
     try:
